@@ -40,6 +40,12 @@ type Solver struct {
 	SolveTime time.Duration
 	TimeoutMs int
 	Log       io.Writer // optional transcript
+
+	// assertion stack mirror, for the stand-alone fallback
+	asserted  [][]*Term
+	IncrMs    int // timeout of the incremental attempt
+	standaloneModel map[string]uint64
+	Fallbacks int
 }
 
 func NewSolver(ctx *TermCtx, timeoutMs int) (*Solver, error) {
@@ -70,9 +76,12 @@ func (s *Solver) start() error {
 	s.level = 0
 	s.send("(set-option :global-declarations true)\n")
 	s.send("(set-option :produce-models true)\n")
-	if s.TimeoutMs > 0 {
-		s.send(fmt.Sprintf("(set-option :timeout %d)\n", s.TimeoutMs))
+	s.IncrMs = 2500
+	if s.TimeoutMs > 0 && s.TimeoutMs < s.IncrMs {
+		s.IncrMs = s.TimeoutMs
 	}
+	s.send(fmt.Sprintf("(set-option :timeout %d)\n", s.IncrMs))
+	s.asserted = [][]*Term{nil}
 	return nil
 }
 
@@ -169,11 +178,13 @@ func (s *Solver) name(t *Term) string {
 func (s *Solver) Push() {
 	s.send("(push 1)\n")
 	s.level++
+	s.asserted = append(s.asserted, nil)
 }
 
 func (s *Solver) Pop() {
 	s.send("(pop 1)\n")
 	s.level--
+	s.asserted = s.asserted[:len(s.asserted)-1]
 }
 
 // PopTo pops to the given level.
@@ -194,6 +205,7 @@ func (s *Solver) Assert(t *Term) {
 	}
 	n := s.name(t)
 	s.send("(assert " + n + ")\n")
+	s.asserted[len(s.asserted)-1] = append(s.asserted[len(s.asserted)-1], t)
 }
 
 func (s *Solver) readLine() (string, error) {
@@ -203,6 +215,7 @@ func (s *Solver) readLine() (string, error) {
 
 // Check runs check-sat.
 func (s *Solver) Check() Result {
+	s.standaloneModel = nil
 	s.send("(check-sat)\n")
 	s.flush()
 	t0 := time.Now()
@@ -233,6 +246,15 @@ func (s *Solver) Check() Result {
 			s.NUnsat++
 			return Unsat
 		case line == "unknown" || line == "timeout":
+			// the incremental core gave up: retry stand-alone (full preprocessing)
+			if r := s.checkStandalone(); r != Unknown {
+				if r == Sat {
+					s.NSat++
+				} else {
+					s.NUnsat++
+				}
+				return r
+			}
 			s.NUnknown++
 			return Unknown
 		case line == "":
@@ -260,6 +282,9 @@ func (s *Solver) CheckWith(extra ...*Term) Result {
 // Model returns values for the given variables; must follow a Sat Check
 // with no intervening pop.
 func (s *Solver) Model(vars []*Term) (map[string]uint64, error) {
+	if s.standaloneModel != nil {
+		return s.standaloneModel, nil
+	}
 	res := map[string]uint64{}
 	// chunk to keep lines manageable
 	for i := 0; i < len(vars); i += 200 {
@@ -441,4 +466,54 @@ func RunScript(script string, argv []string, timeout time.Duration) (Result, str
 		return Unsat, txt
 	}
 	return Unknown, txt
+}
+
+// checkStandalone re-asks the current assertion stack to fresh solver
+// processes (z3 with full preprocessing; z3-new as a second opinion).
+// A Sat answer obtained this way has no model in the incremental process, so
+// callers needing a model will see Unknown from Model(); Unsat is definitive.
+func (s *Solver) checkStandalone() Result {
+	s.Fallbacks++
+	var all []*Term
+	for _, lvl := range s.asserted {
+		all = append(all, lvl...)
+	}
+	script := Script(all, false)
+	to := s.TimeoutMs
+	if to <= 0 {
+		to = 60000
+	}
+	secs := to/1000 + 1
+	r, _ := RunScript(script, []string{s.Binary, "-in", "-smt2", fmt.Sprintf("-T:%d", secs)}, time.Duration(secs+5)*time.Second)
+	if r == Unknown {
+		r, _ = RunScript(script, []string{"z3-new", "-in", "-smt2", fmt.Sprintf("-T:%d", secs)}, time.Duration(secs+5)*time.Second)
+	}
+	s.standaloneModel = nil
+	if r == Sat {
+		// fetch a model for every variable of the script
+		seen := map[*Term]bool{}
+		var vars []*Term
+		for _, t := range all {
+			t.Vars(seen, &vars)
+		}
+		var sb strings.Builder
+		sb.WriteString(script)
+		model := map[string]uint64{}
+		if len(vars) > 0 {
+			sb.WriteString("(get-value (")
+			for _, v := range vars {
+				if v.W >= 0 {
+					sb.WriteString(quoteSym(v.Name))
+					sb.WriteByte(' ')
+				}
+			}
+			sb.WriteString("))\n")
+			cmd := exec.Command(s.Binary, "-in", "-smt2", fmt.Sprintf("-T:%d", secs))
+			cmd.Stdin = strings.NewReader(sb.String())
+			out, _ := cmd.CombinedOutput()
+			parseModel(string(out), model)
+		}
+		s.standaloneModel = model
+	}
+	return r
 }
